@@ -28,11 +28,12 @@ class TracedMech:
                 return dec
         return None
 
-    def run(self, script, rnd, fault_prob=0.0, wake_prob=0.1, reset_prob=0.3, max_events=200, strict=False):
+    def run(self, script, rnd, fault_prob=0.0, wake_prob=0.1, reset_prob=0.3, max_events=200, strict=False, proc_prob=0.0):
         """script: [(ev, a, b)] from a TLC behaviour / counterexample / replay file (steps that are not enabled are skipped).
         Afterwards (unless strict) a seeded random policy drives the system until no decision that counts as progress is
-        enabled: faults are injected with probability fault_prob per step at which one is possible, the node actors' periodic
-        flush wake-ups and ResetRelativeTime are sprinkled in. Returns (#followed, #skipped)."""
+        enabled: faults are injected with probability fault_prob per step at which one is possible, a started node's process is
+        put into a condition other than alive (gone / dying while terminated / ignoring SIGTERM) with probability proc_prob per
+        step, the node actors' periodic flush wake-ups and ResetRelativeTime are sprinkled in. Returns (#followed, #skipped)."""
         followed = skipped = 0
         for want in script:
             dec = self.find(want)
@@ -56,9 +57,14 @@ class TracedMech:
             wakes = [d for d in en if d[0] == "wakeup" and d[1] != self.w.M]
             resets = [d for d in en if d[0] == "rc" and d[1].startswith("reset")]
             joins = [d for d in en if d[0] == "join" and not self.w.is_progress(d)]
+            procs = [d for d in en if d[0] == "proc"]
             r = rnd.random()
             if faults and r < fault_prob:
                 self.do(rnd.choice(faults))
+            elif procs and rnd.random() < proc_prob:
+                # "early" (already gone at stop time) twice as likely as the two other conditions
+                early = [d for d in procs if d[2] == "early"]
+                self.do(rnd.choice(early if rnd.random() < 0.5 else procs))
             elif wakes and rnd.random() < wake_prob:
                 self.do(rnd.choice(wakes))
             elif resets and rnd.random() < reset_prob:
